@@ -78,6 +78,8 @@ func fnExprJS(e *sx) string {
 		return "(" + fnExprJS(a[0]) + "[" + fnExprJS(a[1]) + "] = " + fnExprJS(a[2]) + ")"
 	case "dl":
 		return "(delete " + fnExprJS(a[0]) + "." + a[1].name + ")"
+	case "dlv":
+		return "(delete " + a[0].name + ")"
 	case "dle":
 		return "(delete " + fnExprJS(a[0]) + "[" + fnExprJS(a[1]) + "])"
 	case "c":
@@ -119,6 +121,10 @@ func fnExprJS(e *sx) string {
 		return "log(" + fnExprJS(a[0]) + ")"
 	case "dne":
 		return "Object.defineProperty(" + fnExprJS(a[0]) + ", " + strconv.Quote(a[1].name) + ", {value: " + fnExprJS(a[2]) + ", enumerable: false, writable: true, configurable: true})"
+	case "dfx":
+		return "Object.defineProperty(" + fnExprJS(a[0]) + ", " + strconv.Quote(a[1].name) + ", {value: " + fnExprJS(a[2]) + ", enumerable: false, writable: false, configurable: false})"
+	case "dro":
+		return "Object.defineProperty(" + fnExprJS(a[0]) + ", " + strconv.Quote(a[1].name) + ", {value: " + fnExprJS(a[2]) + ", enumerable: true, writable: false, configurable: true})"
 	case "val":
 		return "(0, " + fnExprJS(a[0]) + ")"
 	case "evd":
@@ -200,6 +206,8 @@ func fnStmtJS(s *sx) string {
 			kw = "var "
 		}
 		return "for (" + kw + a[1].name + " in " + fnExprJS(a[2]) + ") " + fnBlockJS(a[3])
+	case "FII":
+		return "for (var " + a[0].name + " = " + fnExprJS(a[1]) + " in " + fnExprJS(a[2]) + ") " + fnBlockJS(a[3])
 	case "LB":
 		return a[0].name + ": " + fnStmtJS(a[1])
 	case "BR":
